@@ -480,19 +480,24 @@ impl<'de> Deserialize<'de> for OptionWrapper<Inventory> {
                 if self.result.has_errors() {
                     Ok(None)
                 } else {
-                    Ok(Some(
-                        Inventory::new(
-                            id.unwrap(),
-                            type_declaration.unwrap(),
-                            digest_algorithm.unwrap(),
-                            head.unwrap(),
-                            content_directory,
-                            manifest.unwrap().manifest,
-                            versions.unwrap().map,
-                            fixity,
-                        )
-                        .unwrap(),
-                    ))
+                    match Inventory::new(
+                        id.unwrap(),
+                        type_declaration.unwrap(),
+                        digest_algorithm.unwrap(),
+                        head.unwrap(),
+                        content_directory,
+                        manifest.unwrap().manifest,
+                        versions.unwrap().map,
+                        fixity,
+                    ) {
+                        Ok(inventory) => Ok(Some(inventory)),
+                        Err(e) => {
+                            // eg an empty id or content directory
+                            self.result
+                                .error(ErrorCode::E036, format!("Inventory is invalid: {}", e));
+                            Ok(None)
+                        }
+                    }
                 }
             }
         }
@@ -1288,6 +1293,8 @@ impl<'a> DigestsAndPaths<'a> {
     }
 }
 
+const MAX_MISSING_VERSION_ERRORS: u32 = 100;
+
 fn validate_version_nums(version_nums: &BTreeSet<VersionNum>, result: &ParseValidationResult) {
     let mut padding = None;
     let mut consistent_padding = true;
@@ -1304,16 +1311,39 @@ fn validate_version_nums(version_nums: &BTreeSet<VersionNum>, result: &ParseVali
         }
 
         if *version != next_version {
-            while next_version < *version {
+            // Every missing version is reported, up to a limit, so that the work done is
+            // proportional to the size of the inventory rather than to the version numbers in it
+            let mut reported = 0;
+            while next_version < *version && reported < MAX_MISSING_VERSION_ERRORS {
                 result.error(
                     ErrorCode::E010,
                     format!("Inventory 'versions' is missing version '{}'", next_version),
                 );
                 next_version = next_version.next().unwrap();
+                reported += 1;
+            }
+
+            if next_version < *version {
+                result.error(
+                    ErrorCode::E010,
+                    format!(
+                        "Inventory 'versions' is missing versions '{}' through 'v{}'",
+                        next_version,
+                        version.number - 1
+                    ),
+                );
+                next_version = VersionNum {
+                    number: version.number,
+                    width: next_version.width,
+                };
             }
         }
 
-        next_version = next_version.next().unwrap();
+        next_version = match next_version.next() {
+            Ok(next) => next,
+            // u32::MAX: there cannot be a later version
+            Err(_) => break,
+        };
     }
 
     if !consistent_padding {
